@@ -25,6 +25,7 @@ TraceC10 ==
        /\ \A i \in 1..Len(e.ops) :
             LET o == e.ops[i] IN
             IF o[1] = "adjoint" THEN o[4] <= 1
+            ELSE IF o[1] = "transposed" THEN Close(o[3], MonoMat(o[2], e.M), e.M)     \* parts handed out by the public transpose() accessors
             ELSE o[4] = 2 /\ Close(o[3], MonoMat(o[2], e.M), e.M)               \* status Computed, matrix = Jordan-Wigner
        \* every index is covered by both routes
        /\ \A k \in 0..(e.M - 1) : \A c \in {0, 1} : \A route \in {"container", "single"} :
